@@ -213,6 +213,28 @@ def run(ctx):
             for a in ne[0].args:
                 sides.append(g.derived_from(a[1][0])["args"] if a[0] != "k" else set())
             both = len(sides) == 2 and ((1 in sides[0] and 2 in sides[1]) or (2 in sides[0] and 1 in sides[1]))
+        # the two streams are built from the texts alone: nothing but the comment/code classification selects what is compared
+        unit = [x for x in p.by_crate["rustfmt_nightly"] if x.id == g.id or x.id.startswith(g.id + "::{closure")]
+        extra = []
+        for x in unit:
+            for c in x.calls():
+                nm = c.name
+                if nm.startswith("rustfmt_nightly::") or nm.startswith("<rustfmt_nightly::"):
+                    if any(t in nm for t in ("UngroupedCommentCodeSlices", "CommentReducer", "CodeCharKind")) or nm.startswith(g.id):
+                        continue
+                    extra.append((x, c))
+                elif nm.startswith("core::str::") or "<impl str>" in nm:
+                    extra.append((x, c))
+        selective = g.argc != 2 or bool(extra)
+        r.instance(C, "changed_comment_content: what is compared is selected by the comment/code classification only",
+                   "violation" if selective else "ok", "%s:%d" % (g.file, g.line),
+                   "parameters=%d, other selectors=%s" % (g.argc, sorted({short(c.name) for x, c in extra})))
+        if selective:
+            r.violation(C, "changed_comment_content leaves part of the comments out of the comparison",
+                        "the function takes %d parameters and its stream-building closures call %s: besides `kind == Comment`, something "
+                        "else decides which comments are compared, so a rewrite may lose the others unnoticed"
+                        % (g.argc, sorted({short(c.name) for x, c in extra}) or "nothing else"),
+                        ["%s:%d" % (g.file, g.line)] + [c.loc() for x, c in extra][:3])
         ok = len(ne) == 1 and len(red) >= 1 and both
         r.instance(C, "changed_comment_content", "ok" if ok else "violation", "%s:%d" % (g.file, g.line),
                    "reducers=%d, Iterator::ne=%d, compares both arguments=%s" % (len(red), len(ne), both))
@@ -225,6 +247,7 @@ def run(ctx):
     relayout_keeps_lines(ctx, "R03-f")
     offset_base_agreement(ctx, "R03-g")
     use_tree_comment_carrier(ctx, "R03-h")
+    list_item_extent_covers_printer(ctx, "R03-i")
     D = r.rule("R03-d", "lists::write_list (with the closures it owns) reads every comment-bearing field of ListItem: "
                         "pre_comment, pre_comment_style, post_comment, new_lines")
     wl = p.named("write_list", within="rustfmt_nightly::lists")
@@ -441,3 +464,77 @@ def use_tree_comment_carrier(ctx, rid):
                             "contains_comment() on it has not answered false: a comment attached to the `use` item (trailing, or "
                             "on the line above) disappears from the output", ["%s:%d" % (f.file, s[3])])
     r.floor(rid, n, 1, "comment-less UseTree constructions from a received tree")
+
+
+def list_item_extent_covers_printer(ctx, rid):
+    """R03-i: the extent a list-item node reports covers every child its printer emits"""
+    import c17
+    p, r = ctx.p, ctx.r
+    r.rule(rid, "the list machinery (itemize_list) finds the comments that belong to an item in the source text *between* the "
+                "extents `Spanned::span` reports for consecutive items.  For every rustc_ast struct node whose `Spanned::span` "
+                "takes its upper end from a child instead of the node's own span (Arm, Param, GenericParam, FieldDef), every child "
+                "that a printer of the node hands to a rewriter is read by that `Spanned::span` (directly or in a helper it calls) "
+                "or is listed in tables/C03.toml as lying inside the extent.  A printer that emits a child beyond the reported end "
+                "(`field: Ty = default`) makes the list code see ` = default, // comment` as separator text: the comment is dropped "
+                "and the value printed again from the AST")
+    interior = {e["field"]: e["reason"] for e in ctx.table("C03").get("interior_child", [])}
+
+    def hi_sources(f):
+        out = set()
+        for c in f.calls():
+            if not c.name.endswith("::hi"):
+                continue
+            for a in c.args:
+                if a[0] == "k":
+                    continue
+                out |= {(x[0], str(x[2])) for x in f.derived_from(a[1][0])["fields"]}
+                out |= {(e[2], str(e[4])) for e in a[1][1] if isinstance(e, list) and e[0] == "f"}
+        return out
+
+    custom = {}
+    for f in p.by_crate["rustfmt_nightly"]:
+        if " as spanned::Spanned>::span" not in short(f.id) or f.kind == "Closure":
+            continue
+        node = f.locals[1].replace("&", "").strip()
+        if not node.startswith("rustc_ast::"):
+            continue
+        h = hi_sources(f)
+        if (node, "span") in h or not any(x[0] == node for x in h):
+            continue
+        reads = {(a, str(fl)) for (a, v, fl, m, bb, ln) in f.field_accesses()}
+        for c in f.calls():
+            g = p.fns.get(c.resolved or "")
+            if g is not None and g.crate == f.crate:
+                reads |= {(a, str(fl)) for (a, v, fl, m, bb, ln) in g.field_accesses()}
+        custom[node] = ({x[1] for x in reads if x[0] == node}, f)
+    n = 0
+    for node, (rd, sf) in sorted(custom.items()):
+        emitted = {}
+        for f in p.by_crate["rustfmt_nightly"]:
+            if not any(t.replace("&", "").strip() == node for t in f.locals[1:f.argc + 1]):
+                continue
+            for c in f.calls():
+                if not (c17.formatter(c) or (c.declared or "").startswith("rustfmt_nightly::rewrite::Rewrite::rewrite")):
+                    continue
+                for a in c.args:
+                    if a[0] == "k":
+                        continue
+                    fl = {str(x[2]) for x in f.derived_from(a[1][0])["fields"] if x[0] == node}
+                    fl |= {str(e[4]) for e in a[1][1] if isinstance(e, list) and e[0] == "f" and e[2] == node}
+                    for x in fl:
+                        emitted.setdefault(x, set()).add("%s:%d" % (f.file, f.line))
+        for child, where in sorted(emitted.items()):
+            if child in ("span", "id"):
+                continue
+            n += 1
+            key = "%s.%s" % (node, child)
+            ok = child in rd or key in interior
+            r.instance(rid, "%s is emitted by a printer of %s" % (child, node.rsplit("::", 1)[-1]), "ok" if ok else "violation",
+                       sorted(where)[0], "read by Spanned::span" if child in rd else ("interior: " + interior[key]) if key in interior else
+                       "outside the extent Spanned::span computes")
+            if not ok:
+                r.violation(rid, "%s: a printer emits `%s`, which Spanned::span neither reads nor encloses" % (node.rsplit("::", 1)[-1], child),
+                            "the extent reported to the list code ends before text the printer emits; comments after that text are "
+                            "attributed to nothing and dropped", sorted(where) + ["%s:%d" % (sf.file, sf.line)])
+    r.floor(rid, len(custom), 3, "list-item nodes whose Spanned::span ends at a child")
+    r.floor(rid, n, 10, "(node, emitted child) pairs")
